@@ -11,8 +11,10 @@ PROPERTY = "C06"
 META = {
     "bounds": "burst length <= 2 (quick) / 3 (thorough), window 1..2 (3), "
               "n_tries 1..2 (3); fault budget (request lost, reply lost, "
-              "reply duplicated, retryable code, fatal code) <= 2 (quick) / "
-              "3 (thorough) per burst, delays and reordering of replies "
+              "reply duplicated, retryable code, fatal code) <= 2 per burst "
+              "(the exact combinations are the unit names; bursts of 3 only "
+              "with one try or without faults: larger products exceed 10^6 "
+              "paths), delays and reordering of replies "
               "unlimited; optionally one stale ok-reply of an earlier burst "
               "in flight at the start; sequence counter starting at 0, "
               "0xfffe or 0xffff (wrap); one unit with rig's own sequence "
@@ -259,11 +261,10 @@ def units(tier, seed):
         add(1, 1, 2, 2, ALL, stale=True, seq0=0xffff, split=6, wit=OTF,
             multi=True)
         add(2, 1, 2, 1, ALL, split=8, wit=OTF, multi=True)
-        add(2, 2, 2, 1, ALL, stale=True, seq0=0xfffe, split=8, wit=OTF)
-        add(2, 2, 2, 2, LOSS, split=8, wit=("ok", "timeout"))
-        add(3, 2, 2, 1, ("lose_req", "dup", "fatal"), split=8, wit=OTF)
         add(2, 3, 2, 1, ("lose_rep", "retry"), split=8,
             wit=("ok", "timeout"))
-        add(1, 1, 3, 3, ("lose_req", "lose_rep", "retry"), split=6,
+        add(3, 2, 1, 1, ("lose_req", "dup"), split=8, wit=("ok", "timeout"))
+        add(3, 3, 2, 0, (), split=8, wit=("ok", "timeout"))
+        add(1, 1, 3, 2, ("lose_req", "lose_rep", "retry"), split=6,
             wit=("ok", "timeout"))
     return us
